@@ -76,19 +76,35 @@ theorem norm_lookup : ∀ (hs : List (Bytes × Bytes)) (d : Dic) (nv : Bytes × 
 
 theorem capitalized_idem_lookup (H : Dic) (n : Bytes) : header H n = (dicGet H (capitalized n)).getD [] := rfl
 
-/-- **frame_roundtrip (requests).**  For every method, target, header set and body (of any length), every
-fragmentation `cuts` of the byte stream and whatever follows on the connection (`rest`): the server-side reader returns
-exactly what the client serialized and leaves the connection positioned at `rest`. -/
-theorem request_roundtrip (method target host : Bytes) (port : Nat) (hs : Dic) (body rest : Bytes) (cuts : List Nat)
-    (hm : WFWord method) (ht : WFWord target) (hfit : method.length + target.length + 11 ≤ 16001)
-    (hhp : WFValue (host ++ [58] ++ utoa port)) (hhpfit : FitsLine sHostName (host ++ [58] ++ utoa port))
-    (hwf : WFHeaders hs) (hres : NoFraming hs) (hbody : body.length < 2147483648) :
-    ∃ (q : Request) (i' : Inp),
-      readRequest (Inp.ofBytes (serialize (clientMsg method target host port true hs body) ++ rest) cuts) = (q, i') ∧
-      i'.data = rest ∧ Live i' ∧
-      SeesRequest q method target ((sHostName, host ++ [58] ++ utoa port) :: (clientMsg method target host port true hs body).headers) body := by
+/-- the header lines of a client request as they travel: `Host`, then the message's own headers -/
+def wireHeaders (method target host : Bytes) (port : Nat) (hs : Dic) (body : Bytes) : List (Bytes × Bytes) :=
+  (sHostName, host ++ [58] ++ utoa port) :: (clientMsg method target host port true hs body).headers
+
+/-- the request object the reader builds from a well-formed client request -/
+def expectedRequest (method target host : Bytes) (port : Nat) (hs : Dic) (body : Bytes) : Request :=
+  { method := method, resource := target, proto := sHttp11, headers := norm (wireHeaders method target host port hs body), body := body,
+    path := (splitTarget target).1, querystring := (splitTarget target).2.1, fragment := (splitTarget target).2.2 }
+
+/-- what is required of a request for the round trip: words without blanks on the first line, a `Host` value and
+header lines without CR/LF or outer blanks that fit `readLine`, no hand-made framing headers, a body that fits an `int` -/
+structure WFRequest (method target host : Bytes) (port : Nat) (hs : Dic) (body : Bytes) : Prop where
+  wfMethod : WFWord method
+  wfTarget : WFWord target
+  fit : method.length + target.length + 11 ≤ 16001
+  wfHost : WFValue (host ++ [58] ++ utoa port)
+  hostFit : FitsLine sHostName (host ++ [58] ++ utoa port)
+  wfHeaders : WFHeaders hs
+  noFraming : NoFraming hs
+  bodyFits : body.length < 2147483648
+
+/-- exact form, on any live connection `i` whose pending bytes start with the serialized request -/
+theorem request_exact (method target host : Bytes) (port : Nat) (hs : Dic) (body rest : Bytes)
+    (h : WFRequest method target host port hs body) (i : Inp) (hi : Live i)
+    (hd : i.data = serialize (clientMsg method target host port true hs body) ++ rest) :
+    ∃ i' : Inp, readRequest i = (expectedRequest method target host port hs body, i') ∧ i'.data = rest ∧ Live i' ∧
+      WFHeaders (wireHeaders method target host port hs body) := by
+  obtain ⟨hm, ht, hfit, hhp, hhpfit, hwf, hres, hbody⟩ := h
   obtain ⟨hfr, hmem⟩ := client_framed sendBlock (host ++ [58] ++ utoa port) hs body sendBlock_pos hwf hres hhp.1
-  -- the header list on the wire and its well-formedness
   have hwf' : WFHeaders ((sHostName, host ++ [58] ++ utoa port) ::
       (if body.length ≠ 0 then setHeader hs sContentLength (utoa body.length) else hs)) := by
     intro x hx
@@ -100,23 +116,33 @@ theorem request_roundtrip (method target host : Bytes) (port : Nat) (hs : Dic) (
         have := utoa_length body.length hbody
         unfold FitsLine; simp [sContentLength]; omega
       · exact hwf x h
-  have hwire : (Inp.ofBytes (serialize (clientMsg method target host port true hs body) ++ rest) cuts).data =
+  have hwire : i.data =
       method ++ [32] ++ target ++ [32] ++ sHttp11 ++ crlf ++
         headerLines ((sHostName, host ++ [58] ++ utoa port) :: (if body.length ≠ 0 then setHeader hs sContentLength (utoa body.length) else hs))
         ++ crlf ++ writeBody (isChunked (if body.length ≠ 0 then setHeader hs sContentLength (utoa body.length) else hs)) sendBlock body ++ rest := by
-    simp [Inp.ofBytes, serialize, serializeWith, clientMsg, headerBlock, headerLines, sHostName, List.append_assoc]
+    rw [hd]
+    simp [serialize, serializeWith, clientMsg, headerBlock, headerLines, sHostName, List.append_assoc]
   obtain ⟨i', hread, hdat, hlive⟩ := readRequest_wire sendBlock sendBlock_pos sendBlock_lt method target _ _ body rest hm ht hfit hwf' hfr
-    (Inp.ofBytes (serialize (clientMsg method target host port true hs body) ++ rest) cuts) ⟨rfl, rfl⟩ hwire
+    i hi hwire
+  exact ⟨i', hread, hdat, hlive, hwf'⟩
+
+/-- **frame_roundtrip (requests).**  For every method, target, header set and body (of any length), every
+fragmentation `cuts` of the byte stream and whatever follows on the connection (`rest`): the server-side reader returns
+exactly what the client serialized and leaves the connection positioned at `rest`. -/
+theorem request_roundtrip (method target host : Bytes) (port : Nat) (hs : Dic) (body rest : Bytes) (cuts : List Nat)
+    (h : WFRequest method target host port hs body) :
+    ∃ (q : Request) (i' : Inp),
+      readRequest (Inp.ofBytes (serialize (clientMsg method target host port true hs body) ++ rest) cuts) = (q, i') ∧
+      i'.data = rest ∧ Live i' ∧
+      SeesRequest q method target (wireHeaders method target host port hs body) body := by
+  obtain ⟨i', hread, hdat, hlive, hwf'⟩ := request_exact method target host port hs body rest h
+    (Inp.ofBytes (serialize (clientMsg method target host port true hs body) ++ rest) cuts) ⟨rfl, rfl⟩ rfl
   refine ⟨_, i', hread, hdat, hlive, ⟨rfl, rfl, rfl, rfl, ?_⟩⟩
   intro nv hnv huniq
-  have hval : ∀ x ∈ (sHostName, host ++ [58] ++ utoa port) :: (clientMsg method target host port true hs body).headers, x.2 ≠ [] := by
-    intro x hx; exact (hwf' x (by simpa [clientMsg] using hx)).2.1.1
-  have := norm_lookup _ [] nv hval hnv huniq
+  have := norm_lookup _ [] nv (fun x hx => (hwf' x hx).2.1.1) hnv huniq
   show header (norm _) nv.1 = nv.2
   unfold header norm
-  simp only [clientMsg] at this ⊢
   rw [this]; rfl
-
 
 /-! ## responses: what the handler produced is what `Http::request` returns -/
 
@@ -210,5 +236,96 @@ theorem stream_roundtrip (proto : Bytes) (code : Nat) (hs : Dic) (parts : List B
   show header (norm _) nv.1 = nv.2
   unfold header norm
   rw [this]; rfl
+
+
+/-! ## several exchanges on one connection -/
+
+/-- a client request as data -/
+structure Sent where
+  method : Bytes
+  target : Bytes
+  host : Bytes
+  port : Nat
+  hs : Dic
+  body : Bytes
+
+def Sent.wire (s : Sent) : Bytes := serialize (clientMsg s.method s.target s.host s.port true s.hs s.body)
+
+def Sent.expected (s : Sent) : Request := expectedRequest s.method s.target s.host s.port s.hs s.body
+
+/-- a request after which the server reads the connection again: well formed, a target with a path, no `Connection`
+header (HTTP/1.1 keeps the connection), and not an OPTIONS request that the library answers itself -/
+structure Sent.Keeps (opt : Bool) (s : Sent) : Prop where
+  wf : WFRequest s.method s.target s.host s.port s.hs s.body
+  hasPath : (splitTarget s.target).1 ≠ []
+  noConnection : ∀ nv ∈ s.hs, capitalized nv.1 ≠ sConnection
+  handled : ¬ (s.method = sOPTIONS ∧ opt = true)
+
+/-- one turn of the server loop on a connection whose pending bytes start with a request: the handler gets exactly
+that request, the response is the one for that request alone, the connection is kept and positioned after it -/
+theorem serveStep_exact (opt : Bool) (base : Bytes) (p : Plan) (s : Sent) (hs : s.Keeps opt) (rest : Bytes) (i : Inp) (hi : Live i)
+    (hd : i.data = s.wire ++ rest) :
+    ∃ i' : Inp, serveStep opt base p i = (some s.expected, (serve1 opt s.expected p [] base).wire, true, i') ∧
+      i'.data = rest ∧ Live i' := by
+  obtain ⟨i', hread, hdat, hlive, hwf'⟩ := request_exact s.method s.target s.host s.port s.hs s.body rest hs.wf i hi hd
+  have hne : i.data.isEmpty = false := by
+    rw [hd]
+    obtain ⟨a, t, hm⟩ := List.exists_cons_of_ne_nil hs.wf.wfMethod.1
+    simp [Sent.wire, serialize, serializeWith, clientMsg, headerBlock, hm]
+  have hvalid : s.expected.valid = true := by
+    have h1 : s.method.isEmpty = false := by
+      obtain ⟨a, t, hm⟩ := List.exists_cons_of_ne_nil hs.wf.wfMethod.1; rw [hm]; rfl
+    have h2 : (splitTarget s.target).1.isEmpty = false := by
+      obtain ⟨a, t, hm⟩ := List.exists_cons_of_ne_nil hs.hasPath; rw [hm]; rfl
+    simp [Request.valid, Sent.expected, expectedRequest, h1, h2, sHttp11]
+  have hconn : header s.expected.headers sConnection = [] := by
+    refine (header_norm_absent sConnection (by decide) _ ?_).2
+    intro x hx
+    refine ⟨(hwf' x hx).2.1.1, ?_⟩
+    rcases List.mem_cons.mp hx with h | h
+    · subst h; show capitalized sHostName ≠ sConnection; decide
+    · by_cases hb0 : s.body.length = 0
+      · have : x ∈ s.hs := by simpa [clientMsg, hb0] using h
+        exact hs.noConnection x this
+      · have hx' : x ∈ dicSet s.hs sContentLength (utoa s.body.length) := by
+          have := h
+          simp only [clientMsg, hb0, ne_eq, not_false_eq_true, if_true] at this
+          rw [setHeader_of_value (utoa_ne_nil _), cap_cl] at this
+          exact this
+        rcases mem_dicSet hx' with h | h
+        · subst h; show capitalized sContentLength ≠ sConnection; decide
+        · exact hs.noConnection x h
+  obtain ⟨hcalled, hkeep⟩ := serveOne_flags sendBlock recvBlock opt s.expected p [] base rfl hconn hs.handled
+  refine ⟨i', ?_, hdat, hlive⟩
+  unfold serveStep
+  simp only [hne, live_dead hi, Bool.false_eq_true, or_self, if_false]
+  rw [hread]
+  simp only [Sent.expected] at hvalid
+  simp only [hvalid, hlive.2, hlive.1, not_true_eq_false, Bool.false_eq_true, or_self, if_false]
+  unfold serve1
+  simp only [Sent.expected] at hcalled hkeep
+  simp [hcalled, hkeep, Sent.expected]
+
+/-- **keepalive_seq.**  Requests sent one after the other on the same connection — pipelined or not, in any
+fragmentation (`i` is any live connection state) — are served exactly as if each had arrived alone on a fresh
+connection: the reader consumes exactly one message per turn. -/
+theorem keepalive_seq (opt : Bool) (base : Bytes) : ∀ (l : List (Sent × Plan)) (i : Inp), Live i →
+    (∀ sp ∈ l, sp.1.Keeps opt) → i.data = (l.map (fun sp => sp.1.wire)).flatten →
+    serveConn opt base (l.map (·.2)) i =
+      l.map (fun sp => ((serveStep opt base sp.2 (Inp.ofBytes sp.1.wire)).1, (serveStep opt base sp.2 (Inp.ofBytes sp.1.wire)).2.1)) := by
+  intro l
+  induction l with
+  | nil => intro i _ _ _; rfl
+  | cons sp t ih =>
+    intro i hi hk hd
+    obtain ⟨s, p⟩ := sp
+    have hks := hk (s, p) List.mem_cons_self
+    obtain ⟨i', hstep, hdat, hlive⟩ := serveStep_exact opt base p s hks ((t.map (fun sp => sp.1.wire)).flatten) i hi
+      (by simpa using hd)
+    obtain ⟨i0, hstep0, _, _⟩ := serveStep_exact opt base p s hks [] (Inp.ofBytes s.wire) ⟨rfl, rfl⟩ (by simp [Inp.ofBytes])
+    simp only [List.map_cons, serveConn]
+    rw [hstep, hstep0]
+    simp only [if_true]
+    rw [ih i' hlive (fun sp h => hk sp (List.mem_cons_of_mem _ h)) hdat]
 
 end C10
